@@ -22,7 +22,10 @@ class _Lock:
 
 def lake_build(targets, timeout=3000):
     """Build the given targets. Returns (ok, log)."""
+    sys.path.insert(0, os.path.join(ROOT, "tools"))
+    import gen_roots
     with _Lock():
+        gen_roots.main()
         p = subprocess.run(["lake", "build"] + list(targets), cwd=LEAN, stdout=subprocess.PIPE,
                            stderr=subprocess.STDOUT, text=True, timeout=timeout)
     return p.returncode == 0, p.stdout
